@@ -80,8 +80,17 @@ class Recorder:
                 'budget_exhausted': self.budget_exhausted}
 
 
+class _BudgetOver(BaseException):
+    """raised inside a Hypothesis run once the tier budget is used up: ends the generation of the shard at once (a BaseException
+    is not a test failure to Hypothesis; nothing is replayed or shrunk)"""
+
+
+_CURRENT = {'rec': None}
+
+
 def drive(strategy, fn, n, seed):
-    """Run fn over n Hypothesis-generated cases (generation only; failures are recorded by fn, not raised)."""
+    """Run fn over n Hypothesis-generated cases (generation only; failures are recorded by fn, not raised).  Generation stops
+    as soon as the budget of the recorder of the running shard is used up."""
     from hypothesis import given, settings, HealthCheck, Phase, seed as hseed
 
     @hseed(seed)
@@ -89,9 +98,15 @@ def drive(strategy, fn, n, seed):
               suppress_health_check=list(HealthCheck), report_multiple_bugs=False)
     @given(strategy)
     def _t(case):
+        rec = _CURRENT['rec']
+        if rec is not None and rec.out_of_time():
+            raise _BudgetOver()
         fn(case)
 
-    _t()
+    try:
+        _t()
+    except _BudgetOver:
+        pass
 
 
 # ---------------------------------------------------------------- pool plumbing
@@ -118,6 +133,9 @@ def _run_shard(args):
     try:
         mod = importlib.import_module(mod_name)
         rec = Recorder(deadline)
+        _CURRENT['rec'] = rec
+        # the check modules import this file as gxv.runner, which is another module object than __main__ when run with -m
+        importlib.import_module('gxv.runner')._CURRENT['rec'] = rec
         mod.run_shard(spec, rec)
         return {'ok': True, 'rec': rec.dump(), 'spec': spec}
     except BaseException as e:  # harness problem (the code under test's exceptions are handled inside checks)
